@@ -73,6 +73,10 @@ type Plan struct {
 	MaxSteps  int          `json:"maxSteps"`
 	Listeners bool         `json:"listeners,omitempty"`
 	Nonce     bool         `json:"nonce,omitempty"` // every write transaction stores a unique commit marker
+	// Schema: order-only variations of the store wiring (the behaviour every property prescribes is the same):
+	// bit 0 the extended child store registers its strategy before the plain one, bit 1 the system-entity constraint
+	// of people is added before its indexes
+	Schema int `json:"schema,omitempty"`
 	Note      string       `json:"note,omitempty"`
 	// filled in when a violation is written out
 	Violation *Violation `json:"violation,omitempty"`
@@ -661,6 +665,7 @@ func (g *gen) genOp() Op {
 		op.Fail = g.r.IntN(3) == 0
 	case "commitAction":
 		op.K = "commitAction"
+		op.TxCtx = g.r.IntN(4) == 0
 	case "listen":
 		// a listener registered while the transaction is in flight (between its operations and its commit)
 		op.K = "listen"
@@ -761,6 +766,9 @@ func (g *gen) prologue() TxPlan {
 	ng := 1 + g.r.IntN(2)
 	for i := 0; i < ng; i++ {
 		tx.Ops = append(tx.Ops, Op{K: "create", S: StGroups, Id: U.Groups[i]})
+	}
+	if g.r.IntN(2) == 0 {
+		tx.Ops = append([]Op{{K: "initIndexes"}}, tx.Ops...)
 	}
 	for _, op := range tx.Ops {
 		g.shadow.Apply(op, 0)
@@ -1007,6 +1015,7 @@ func (g *gen) genTx() TxPlan {
 		}
 		if (g.cfg.Profile == "tx" || g.cfg.Profile == "txenum") && g.r.IntN(8) == 0 {
 			op.Nested = true // issued inside a nested Db.Update on the already bound context
+			op.TxCtx = g.r.IntN(2) == 0
 		}
 		if tx.Ctx == "sys" {
 			op.Sys = true
@@ -1104,7 +1113,7 @@ func GenPlan(profile, prop string, seed uint64) *Plan {
 		panic("GenPlan: unknown profile " + profile)
 	}
 	g := &gen{r: r, cfg: cfg, shadow: NewModel()}
-	p := &Plan{Profile: profile, Prop: prop, Seed: seed, Listeners: cfg.Listeners}
+	p := &Plan{Profile: profile, Prop: prop, Seed: seed, Listeners: cfg.Listeners, Schema: int(seed>>7) & 3}
 	if (prop == "C16" || profile == "tx") && r.IntN(14) == 0 {
 		return g.sysBatchPlan(p)
 	}
@@ -1154,7 +1163,7 @@ func genConcurrent(profile, prop string, seed uint64, r *rand.Rand) *Plan {
 	cfg.FaultRate = []float64{0, 0.08}[r.IntN(2)]
 	cfg.Faults = []string{"F1", "F7"}
 	g := &gen{r: r, cfg: cfg, shadow: NewModel()}
-	p := &Plan{Profile: profile, Prop: prop, Seed: seed, Nonce: true}
+	p := &Plan{Profile: profile, Prop: prop, Seed: seed, Nonce: true, Schema: int(seed>>7) & 3}
 	nw := 1 + r.IntN(2)
 	if profile == "conc" {
 		nw = 1
